@@ -50,13 +50,12 @@ Definition check (fx : fixes) (c : case) : verdict :=
   let r := c_rule c in
   let names := statement_names q (c_pl c) in
   let v := view_url q in
-  {| v_corr := oracle_ok q &&
-               outcome_eqb (project names r (serve fx q (c_pl c) r)) (project names r (c_obs c));
+  {| v_corr := outcome_eqb (project names r (serve fx q (c_pl c) r)) (project names r (c_obs c));
      v_prop := spec_ok q (c_pl c) r (c_obs c);
      v_guards := guards [(1%Z, negb (fx_f1 fx) && guard_F1_v v r); (2%Z, guard_F2 q); (3%Z, guard_F3_v v r);
                          (4%Z, negb (fx_f4 fx) && guard_F4 q (c_pl c)); (5%Z, guard_F5 r);
                          (6%Z, negb (fx_f6 fx) && guard_F6_v v r); (7%Z, negb (fx_f7 fx) && guard_F7 q);
-                         (8%Z, guard_F8 (c_pl c) r)] |}.
+                         (8%Z, guard_F8 (c_pl c) r); (9%Z, guard_F9 q)] |}.
 
 (** * units: Backend.CreateURL on arbitrary url.URL values *)
 
